@@ -2,6 +2,7 @@
  *
  * hist=<ops> with ops separated by '.':  M open(missing file)  U open(unwritable path, out)  I open(valid file, in)
  *   O open(out)  A open again (the same call as the successful open)  B open again in the other direction  R read  W write(obj)  C close  D destroy (last)
+ * buf=<stream buffer bound, 0 = default>  q=<object queue capacity>
  * n=<objects in the valid input file>  bound=<deviation bound>  static=1 (the 6 static priority orders)
  *
  * Oracle: is_open() after every step, good()/eof() in read mode per the reference machine, objects delivered are the
@@ -22,7 +23,7 @@
 using namespace Vector::BLF;
 
 static std::vector<std::string> OPS;
-static long NOBJ, QCAP;
+static long NOBJ, QCAP, BUF;
 static std::string INPATH, OUTPATH, MISSING, UNWRITABLE;
 static std::vector<blfasm::Bytes> ENC;
 static int g_dtor[128];
@@ -78,6 +79,7 @@ static std::string body() {
     {
         std::unique_ptr<File> f(new File);
         f->m_readWriteQueue.setBufferSize((uint32_t)QCAP);
+        if (BUF > 0) f->m_uncompressedFile.setBufferSize(BUF);   /* smaller than the file: the inflating stage blocks on buffer space */
         for (size_t k = 0; k < OPS.size() && err.empty(); k++) {
             const std::string & op = OPS[k];
             std::string at = " (step " + std::to_string(k) + " '" + op + "')";
@@ -157,6 +159,7 @@ static int run_config(const vx::Args & args) {
     for (std::string t; std::getline(in, t, '.');) OPS.push_back(t);
     NOBJ = args.num("n", 3);
     QCAP = args.num("q", 10);
+    BUF = args.num("buf", 0);
     alloccap::cap = (size_t)64 << 20;
     vx::Options opt;
     opt.bound = 0;
